@@ -59,6 +59,11 @@ def cosSqHiEnc : Rat × Rat := ((82635182233306965114828337323 / 200000000000000
 /-- `if hydrogen_bond_count < K: continue` -/
 def minHbondCount : Nat := 2
 
+/-- find_pairs looks up atom / type / residue of a KD-tree point through dictionaries keyed by the coordinate
+tuple (two points with identical coordinates collide; the later one wins for both indices); false = keyed by
+point index (live probe with two atoms on the same coordinates) -/
+def pointsKeyedByCoordinates : Bool := false
+
 /-- find_pairs iterates the atom names of a residue without repetition (`dict.fromkeys(acceptors + donors)`);
 false = `acceptors + donors` with a name listed in both inserted twice -/
 def pointsDeduplicated : Bool := true
